@@ -138,6 +138,13 @@ def r10_8(run):
     run.floor('R10.8', 'setters of FilesystemOnionService', k, 3)
 
 
+def r10_9(run):
+    """one pending entry per option: the pending set is keyed by Tor's canonical spelling, whatever capitalisation the caller used
+    (otherwise two assignments to one option under different spellings are both sent) - rule R11.2, shared"""
+    from . import c11
+    borrow(run, c11.r11_2, 'R10.9')
+
+
 def r10_7(run):
     """every attribute assignment in setup mode becomes the pending value (last assignment wins)"""
     sa = CU(run, '__setattr__')
@@ -482,6 +489,7 @@ def r10_6(run):
 RULES = [
     ('R10.7', 'setter post-condition: every assignment reaches unsaved[name] = value; every list value is wrapped for its own option', r10_7),
     ('R10.8', 'onion-service setters mark HiddenServices pending; the port list is tracked', r10_8),
+    ('R10.9', 'name routing: config / parsers / unsaved are indexed only with _find_real_name results (R11.2 borrowed)', r10_9),
     ('R10.6', 'identity flow: the pending list object itself becomes the current value (no copy / re-wrap on the list leg)', r10_6),
     ('R10.1', 'effect analysis on the call graph: nothing reachable from attribute access / list wrappers sends a command', r10_1),
     ('R10.2', 'tracked mutators: the six list mutators are wrapped; wrapper calls on_modify and the original once; mark_unsaved aliases the live list', r10_2),
